@@ -86,6 +86,22 @@ def handle (toks : List String) (impl : String) : Verdict :=
       { model := some s!"ok {n} {bad} {tsum}",
         oracle := if impl.startsWith s!"ok {n} 0 " then none else some s!"calendar says {n} cases, all must round-trip" }
     | _, _ => badOp "num"
+  | ["yfd", years, ts] =>
+    match parseInt years, parseInt ts with
+    | some years, some ts =>
+      (match civilOfUnix ts with
+       | some c =>
+         let r := yearsFromDate years c
+         -- the documentation's statement, on the implementation's own answer: the same month, day (28 for a leap
+         -- day) and time of day, `years` years away
+         let want := s!"ok {(c.y : Int) + years} {c.m} {if c.d = 29 ∧ c.m = 2 then 28 else c.d} {c.h} {c.mi} {c.s} "
+         { model := some s!"{showCivil r} {unixOf r}",
+           oracle := if impl.startsWith want then none else some s!"years_from_date must give {want}" }
+       | none => badOp "ts")
+    | _, _ => badOp "num"
+  | ["fromsecs", _] =>
+    { oracle := if impl = "ordered=true length=true anchored=true from_duration=true" then none
+                else some "Validity::from_secs must give an ordered window of the asked length that starts (forwards) or ends (backwards) now" }
   | ["validity", nb, na, now] =>
     -- `<n>+h` = n + 0.5 s: before notBefore iff n < notBefore; after notAfter iff n ≥ notAfter, i.e. the verdict at
     -- n for a window ending one second earlier
